@@ -25,7 +25,7 @@ func init() {
 // swap happens exactly when the first round >= tRound-1 is stored, once; afterwards only the new epoch's
 // partials are accepted and the new threshold is used. A misaligned transition time is refused.
 func ZZ_C07_switchPoint() {
-	nw := zzNewNet(4, 3) // old group: members 0..3, threshold 3
+	nw := zzNewNet(4, 3)                                // old group: members 0..3, threshold 3
 	clk := zzfake.NewClock(zzGenesis + 3*zzPeriodS + 1) // clock in round 4
 	base := memdb.NewStore(100)
 	cbs := NewCallbackStore(zzfake.Logger(), base)
@@ -200,6 +200,94 @@ func ZZ_C05_syncManagerRun() {
 		} else {
 			zz.Assert("running_sync_is_not_restarted_early", calls == 1)
 		}
+	}
+	cancel()
+}
+
+func init() { zz.Register("ZZ_C07_aggregateAcrossTransition", ZZ_C07_aggregateAcrossTransition) }
+
+// ZZ_C07_aggregateAcrossTransition (also C03): a node that stays through a resharing which CHANGES THE
+// THRESHOLD, wired as newChainStore wires it (store stack, "chainstore" callback, running aggregator), then
+// TransitionNewGroup. The last pre-transition round is stored, the vault switches, and m partials of the new
+// epoch arrive for the first round of the new group (through the real intake; the node's own through
+// NewValidPartial). The chain continues with exactly the new threshold: m >= t_new partials produce the
+// verifiable beacon of that round, fewer produce nothing.
+func ZZ_C07_aggregateAcrossTransition() {
+	n := 4
+	tOld, tNew := zz.Param("t_old", 3), zz.Param("t_new", 4)
+	nw := zzNewNet(n, tOld)
+	tRound := uint64(6)
+	clk := zzfake.NewClock(zzGenesis + int64(tRound-2)*zzPeriodS + 1) // clock in round tRound-1
+	head := &common.Beacon{Round: tRound - 2, Signature: []byte{0x11, 0x22}}
+	base := &zzBase{}
+	cbs := zzStack(nw, base, head)
+	client := &zzfake.Client{Clock: clk}
+	h := zzHandler(nw, 0, clk, cbs, client)
+	cs := h.chain
+	ctx, cancel := context.WithCancel(context.Background())
+	cs.ctx, cs.ctxCancel = ctx, cancel
+	cs.syncm = &SyncManager{log: zzfake.Logger(), newReq: make(chan RequestInfo, 10)}
+	cbs.AddCallback("chainstore", func(b *common.Beacon, closed bool) {
+		if closed {
+			return
+		}
+		cs.beaconStoredAgg <- b
+	})
+	go cs.runAggregator()
+	// the aggregator has already seen traffic of the old epoch (so that anything it reads once is read by now)
+	warm := &proto.PartialBeaconPacket{Round: tRound - 1, PreviousSignature: head.Signature}
+	msg0 := nw.sch.DigestBeacon(&common.Beacon{Round: tRound - 1, PreviousSig: head.Signature})
+	warm.PartialSig, _ = nw.sch.ThresholdScheme.Sign(nw.ep.Shares[1], msg0)
+	_, werr := h.ProcessPartialBeacon(context.Background(), warm)
+	zz.Quiesce()
+	zz.Assert("old_epoch_partial_accepted_before_the_transition", werr == nil)
+
+	newEp := zzfake.Deal(nw.sch, n, tNew, "group-secret", "epoch2")
+	newGroup := zzfake.Group(nw.sch, nw.pairs, tNew, nw.group.Period, zzGenesis, newEp, "")
+	newGroup.GenesisSeed = nw.group.GenesisSeed
+	newGroup.TransitionTime = common.TimeOfRound(nw.group.Period, zzGenesis, tRound)
+	h.TransitionNewGroup(context.Background(), newEp.Share(nw.sch, 0), newGroup)
+
+	// the last round of the old group is stored (by sync or by aggregation elsewhere): the vault switches
+	lastOld := &common.Beacon{Round: tRound - 1, PreviousSig: head.Signature, Signature: []byte{0x33, 0x44}}
+	zz.Assert("last_pre_transition_round_is_stored", cbs.Put(context.Background(), lastOld) == nil)
+	zz.Quiesce()
+	zz.Assert("vault_switched_to_the_new_group", h.crypto.GetGroup() == newGroup)
+	nputs := len(base.puts)
+
+	// round tRound: m distinct members of the NEW epoch contribute
+	clk.Set(zzGenesis + int64(tRound-1)*zzPeriodS + 1)
+	m := tNew - 1 + zz.Choose("contributors.at_threshold", 2) // t_new-1 or t_new
+	if zz.Param("t_old", 3) < tNew && zz.Bool("contributors.old_threshold_only") {
+		m = tOld // exactly the OLD threshold (below the new one)
+	}
+	msg := nw.sch.DigestBeacon(&common.Beacon{Round: tRound, PreviousSig: lastOld.Signature})
+	order := []int{1, 2, 3, 0}
+	for i := 0; i < m && i < n; i++ {
+		idx := order[i]
+		ps, err := nw.sch.ThresholdScheme.Sign(newEp.Shares[idx], msg)
+		if err != nil {
+			panic(err)
+		}
+		pkt := &proto.PartialBeaconPacket{Round: tRound, PreviousSignature: lastOld.Signature, PartialSig: ps}
+		if idx == 0 {
+			cs.NewValidPartial(context.Background(), h.addr, pkt) // the node's own partial, as broadcastNextPartial hands it over
+		} else {
+			_, err := h.ProcessPartialBeacon(context.Background(), pkt)
+			zz.Assert("new_epoch_partial_accepted_after_the_transition", err == nil)
+		}
+		zz.Quiesce()
+	}
+	zz.Quiesce()
+	produced := len(base.puts) > nputs
+	if m >= tNew {
+		zz.Assert("chain_continues_with_a_threshold_of_the_new_group", produced && base.puts[len(base.puts)-1].Round == tRound)
+	} else {
+		zz.Assert("no_beacon_below_the_new_threshold", !produced)
+	}
+	if produced {
+		b := base.puts[len(base.puts)-1]
+		zz.Assert("beacon_across_the_transition_verifies_under_the_unchanged_key", nw.sch.VerifyBeacon(b, nw.group.PublicKey.Key()) == nil)
 	}
 	cancel()
 }
